@@ -299,6 +299,185 @@ def rule_index_position(chk, prog):
     return n
 
 
+def _inode_type_values():
+    from ..controls import control_program
+    import os
+    from ..build import repo_root
+    prog = control_program("c03_enums.c", flags=("-I" + os.path.join(repo_root(), "include"),))
+    vals = None
+    for unit in prog.by_src.values():
+        g = unit.globals.get("verif_inode_types")
+        if g and g.get("init"):
+            vals = g["init"]
+    if vals is None:
+        raise AnalysisBroken("could not evaluate the SQFS_INODE_* enumerators")
+    flat = []
+
+    def walk(x):
+        if isinstance(x, (list, tuple)):
+            for y in x:
+                walk(y)
+        elif isinstance(x, int):
+            flat.append(x)
+    walk(vals[1:] if isinstance(vals[0], str) else vals)
+    names = ["DIR", "FILE", "SLINK", "BDEV", "CDEV", "FIFO", "SOCKET", "EXT_DIR", "EXT_FILE"]
+    return dict(zip(names, flat))
+
+
+def rule_file_nlink(chk, prog):
+    """K12-nlink: the inode of a regular file comes ready-made from the block processor, basic or extended.  On every
+    path from taking it over to writing it out, the extended layout's link count is set from the tree node -- except on
+    paths on which the inode is known to be a basic file inode (which has no such field).  An extended file inode
+    (sparse or large file) that is a hard link target would otherwise keep nlink = 1."""
+    from .c13 import _e7_walk
+    T = _inode_type_values()
+    n = 0
+
+    class _S:
+        pass
+    for f in prog.functions():
+        if f.decl or not f.unit.src.startswith("lib/common/src/writer/"):
+            continue
+        f.build()
+        # the link count is the first 32 bit member of the extended file inode (three 64 bit members come first);
+        # DWARF member names are not reliable for the members of the inode union
+        nl_idx = None
+        st_ = prog.struct("struct.sqfs_inode_file_ext_t")
+        if st_ is not None:
+            for k_, e_ in enumerate(st_["elems"]):
+                if e_["sz"] == 4:
+                    nl_idx = k_
+                    break
+        if nl_idx is None:
+            raise AnalysisBroken("layout of sqfs_inode_file_ext_t not found")
+
+        def is_nlink(q):
+            fl = q.fields() or []
+            return bool(fl) and fl[-1][0].startswith("struct.sqfs_inode_file_ext_t") and fl[-1][1] in ("nlink", "#%s" % nl_idx)
+        takes = [i for i in f.insts() if i.op == "load" and i.ty.endswith("struct.sqfs_inode_generic_t*") and
+                 strip_casts(i.ops[0]).is_inst and strip_casts(i.ops[0]).op == "getelementptr" and
+                 [fl[1] for fl in (strip_casts(i.ops[0]).fields() or [])][-1:] == ["inode"] and
+                 "tree_node" not in (strip_casts(i.ops[0]).fields() or [("", "")])[-1][0].replace("struct.anon", "")]
+        writes = [c for c in f.calls() if norm_callee(c.callee) == "sqfs_meta_writer_write_inode"]
+        if not takes or not writes:
+            continue
+        for tk in takes:
+            n += 1
+            chk.analysed(f)
+            inst = "%s:file-inode@%d" % (f.name, tk.line)
+            st = _S()
+            st.bb = tk.bb
+            bad = None
+            for (v, r, path) in _e7_walk(prog, f, st, None, [], set()):
+                if not any(w.bb in path for w in writes):
+                    continue
+                cut = max(path.index(w.bb) for w in writes if w.bb in path)
+                stored = known_basic = False
+                for k in range(cut + 1):
+                    b = path[k]
+                    for i in b.insts:
+                        if i.op == "store":
+                            q = strip_casts(i.ops[1])
+                            if q.is_inst and q.op == "getelementptr" and is_nlink(q):
+                                stored = True
+                    t = b.term
+                    if k < cut and t.op == "br" and len(t.x["succ"]) == 2 and t.ops[0].is_inst and t.ops[0].op == "icmp" and \
+                            t.ops[0].pred in ("eq", "ne"):
+                        c0 = t.ops[0]
+                        k0 = [o for o in c0.ops if o.is_const and o.is_int]
+                        ty = [x for x in backward_slice(c0, phi_control=False, limit=20) if x.is_inst and x.op == "load" and
+                              strip_casts(x.ops[0]).is_inst and strip_casts(x.ops[0]).op == "getelementptr" and
+                              [fl[1] for fl in (strip_casts(x.ops[0]).fields() or [])][-1:] == ["type"]]
+                        if k0 and ty and k0[0].uval == T["FILE"]:
+                            took_true = path[k + 1] is t.x["succ"][0]
+                            if took_true == (c0.pred == "eq"):
+                                known_basic = True
+                if not stored and not known_basic:
+                    bad = r
+                    break
+            if bad is None:
+                chk.ok("K12-nlink", inst, tk, "the link count reaches the extended file inode on every path on which the inode is "
+                       "not known to be a basic one")
+            else:
+                chk.violation("K12-nlink", inst, tk, "a regular file's inode can be written out without its link count having been "
+                              "set, on a path on which it may be an extended inode (sparse or large file): a hard-linked sparse "
+                              "file keeps nlink = 1")
+    return n
+
+
+def rule_not_full(chk, prog):
+    """K13-notfull: between two calls of the block processor's append, and when the file is ended, the current block is
+    never full: ending a file turns whatever is left in it into a tail end (fragment), so a block that was filled
+    exactly by the last append has to be submitted before append returns.  Every path from the store that grows the
+    current block's size to a successful return passes a comparison of the block's size with the maximum block size."""
+    from .c13 import _e7_walk
+    n = 0
+
+    class _S:
+        pass
+
+    def fld_last(v):
+        q = strip_casts(v)
+        if q.is_inst and q.op == "getelementptr" and q.fields():
+            return q.fields()[-1]
+        return None
+    for f in prog.functions():
+        if f.decl or not f.unit.src.startswith("lib/sqfs/src/block_processor/"):
+            continue
+        f.build()
+        grows = []
+        for i in f.insts():
+            if i.op == "store" and (fld_last(i.ops[1]) or ("", ""))[1] == "size" and \
+                    (fld_last(i.ops[1]) or ("", ""))[0].startswith("struct.sqfs_block_t"):
+                v = i.ops[0]
+                sl = [v] + list(backward_slice(v, phi_control=False, limit=30))
+                if any(x.is_inst and x.op == "add" for x in sl) and any(
+                        x.is_inst and x.op == "load" and (fld_last(x.ops[0]) or ("", ""))[1] == "size" for x in sl):
+                    # the block is the processor's current block
+                    base = [x for x in backward_slice(i.ops[1], phi_control=False, limit=30) if x.is_inst and x.op == "load" and
+                            (fld_last(x.ops[0]) or ("", ""))[1] == "blk_current"]
+                    if base:
+                        grows.append(i)
+        for g in grows:
+            n += 1
+            chk.analysed(f)
+            inst = "%s:blk_current.size@%d" % (f.name, g.line)
+            st = _S()
+            st.bb = g.bb
+            bad = None
+            for (v, r, path) in _e7_walk(prog, f, st, None, [], set()):
+                if not (v.is_const and v.is_int and v.sval == 0):
+                    continue
+                tested = False
+                for k, b in enumerate(path):
+                    t = b.term
+                    if t.op == "br" and len(t.x["succ"]) == 2 and t.ops[0].is_inst and t.ops[0].op == "icmp":
+                        if k == 0 and t.pos < g.pos:
+                            continue
+                        def direct(o):
+                            while o.is_inst and o.op in ("zext", "sext", "trunc"):
+                                o = o.ops[0]
+                            if o.is_inst and o.op == "load":
+                                return (fld_last(o.ops[0]) or ("", ""))[1], o
+                            return None, None
+                        (na, la), (nb, lb) = direct(t.ops[0].ops[0]), direct(t.ops[0].ops[1])
+                        names = {na, nb}
+                        fresh = all(l is None or k > 0 or l.pos > g.pos for l in (la, lb))
+                        if names == {"size", "max_block_size"} and fresh:
+                            tested = True
+                if not tested:
+                    bad = r
+                    break
+            if bad is None:
+                chk.ok("K13-notfull", inst, g, "after the current block has grown, its size is compared with the block size before "
+                       "append returns")
+            else:
+                chk.violation("K13-notfull", inst, g, "append can return successfully right after growing the current block, without "
+                              "looking whether it is full: a file that ends exactly there has its last full block turned into a "
+                              "tail end (a block-sized 'fragment', block list one entry short)")
+    return n
+
+
 def run(chk):
     chk.explanation = (
         "The invariants themselves are predicates over image bytes (value-level). Decided: the structural checks the "
@@ -317,14 +496,20 @@ def run(chk):
     rule_padding(chk, prog)
     rule_meta_block_limit(chk, prog)
     rule_index_position(chk, prog)
+    rule_file_nlink(chk, prog)
+    rule_not_full(chk, prog)
+    chk.floor("K13-notfull", 1)
+    chk.floor("K12-nlink", 1)
     from .c02 import rule_seqstamp
     rule_seqstamp(chk, prog)
     chk.floor("K11-seqstamp", 2)
     chk.floor("K11-indexpos", 1)
     chk.floor("K1-contract", 4)
-    from .c08 import rule_g_truncate, rule_i_every_block
+    from .c08 import rule_g_truncate, rule_i_every_block, rule_j_logged
     rule_g_truncate(chk, load_program("gensquashfs"))
     rule_i_every_block(chk, load_program("gensquashfs"))
+    rule_j_logged(chk, load_program("gensquashfs"))
+    chk.floor("K11-logged", 1)
     chk.floor("K13-truncate", 1)
     chk.floor("K7", 45)
     chk.floor("K13-padding", 2)
